@@ -310,16 +310,20 @@ PROPS = {
         explanation="byte-level model of KanalPtr with every size test taken from the extractor: each transfer path returns exactly the bytes sent for every pointer size P>0 and every size n (zst/smaller/equal/larger), nothing uninitialised; zst touches nothing; proved failure with >= ; ptr hook events of scheduled runs checked against the model's branch; integrity runs over 15 concrete types x all paths x sync/timed/async",
     ),
     "C06": dict(extra_c0607("C06"),
-                families=lambda tier, seed: [Family("pending5", "exh", "PQyvdc", "0,1", depth=5, configs=("w:s", "l:a"))] if tier == "quick" else
-                                            [Family("pending7", "exh", "PQyvdc", "0,1,2", depth=7, configs=("w:s", "l:a"))],
-                conc=conc_prof("progress", PARK_MACROS, ["stuck", "wake", "orderings"], oracles=("ledger", "lifetime", "timeout"),
-                               qn=500, tn=15000, strategies=STRATS + ("after:park:1", "after:cas:2", "after:unpark:1")),
+                families=lambda tier, seed: [Family("pending5", "exh", "PQyvdc", "0,1", depth=5, configs=("w:s", "l:a")),
+                                             Family("refill5", "exh", "PSRUvd", "1,2", depth=5, configs=("w:s", "l:a"))] if tier == "quick" else
+                                            [Family("pending7", "exh", "PQyvdc", "0,1,2", depth=7, configs=("w:s", "l:a")),
+                                             Family("refill7", "exh", "PSRUvd", "1,2", depth=7, configs=("w:s", "l:a", "b:a"))],
+                conc=lambda tier, seed: conc_prof("progress", PARK_MACROS, ["stuck", "wake", "orderings"], oracles=("ledger", "lifetime", "timeout"),
+                               qn=400, tn=12000, strategies=STRATS + ("after:park:1", "after:cas:2", "after:unpark:1"))(tier, seed) +
+                                        conc_prof("refill", {"send": 6, "recvt": 4, "recv": 2, "tryr": 2, "asend1": 2, "sendt": 1, "drain": 1}, ["stuck", "wake"],
+                               oracles=("ledger", "timeout"), qn=300, tn=8000, caps=("1", "2"), threads=(2, 3), ops=(2, 4))(tier, seed),
                 conc_corpus=["D5_recv_future_waker_race.prog"], conc_corpus_monitors=["wake"],
                 relevant=rel_tokens(r" w\d+|pending|err:Closed"),
                 explanation="channel level: a listed waiter cannot complete yet, a registered undecided waiter is listed, a claimed waiter can always be finalised and a final one can return; signal level (SigM, extracted orderings): no lost wake-up incl. spurious unparks and spin->park, future's waker woken exactly once, every own step of the waiter decreases a rank once the peer is done, peer never waits; negative run without unpark"),
     "C07": dict(extra_c0607("C07"),
                 families=lambda tier, seed: [],
-                conc=conc_prof("handoff", PARK_MACROS, ["orderings", "peerproto", "mutex", "stuck"], oracles=("lifetime", "ledger"),
+                conc=conc_prof("handoff", PARK_MACROS, ["orderings", "peerproto", "wakerlife", "mutex", "stuck"], oracles=("lifetime", "ledger"),
                                qn=500, tn=15000, strategies=STRATS + ("after:park:1", "after:cas:2", "after:unpark:1", "after:cell:2")),
                 conc_corpus=["D5_recv_future_waker_race.prog"], conc_corpus_monitors=["wake", "peerproto"],
                 relevant=lambda d: True,
@@ -395,10 +399,13 @@ PROPS = {
     ),
     "C19": dict(
         level="proof",
-        lean_targets=["Kanal.Props.C19"],
-        props_files=["Kanal/Props/C19.lean"],
+        lean_targets=["Kanal.Props.C19", "Kanal.Tie"],
+        props_files=["Kanal/Props/C19.lean", "Kanal/Tie.lean"],
         leancheck=["Kanal.Props.C19"],
         families=fams_c19,
+        conc=conc_prof("drain", {"drain": 6, "send": 5, "sendt": 1, "try": 3, "asend1": 2, "asend2": 1, "recv": 1, "tryr": 1, "close": 1},
+                       ["drain", "fifo", "stuck", "nonblocking"], caps=("0", "1", "2", "u"),
+                       strategies=STRATS + ("after:guard:1", "after:guard:2", "after:unlock:3")),
         relevant=rel_ops("drain"),
         trusted=["specgen/seqdrv text protocol", "Vec::reserve / push only affect allocation, never earlier contents (Rust std); the driver checks the prefix of a pre-filled vector on every drain"],
         assumptions=COMMON_ASSUME + ["drain_into is one critical section (no lock release between the buffer loop and the sender loop): concurrent senders are ordered entirely before or after it"],
